@@ -8,14 +8,14 @@
 (* within the step bound.  Also the lemma that ToStrContract implies the     *)
 (* C15 BufferContract and completeness.                                      *)
 EXTENDS ScpiFormat, TLC
-CONSTANTS W, Bases, MaxLen
+CONSTANTS W, Bases, Signs, MaxLen
 VARIABLE st
 
 Off == 1
 Fill == 170
 Before(len) == [i \in 1..(Off + len + 2) |-> Fill]
 
-Init == \E v \in 0..(Pow(2, W) - 1), base \in Bases, signed \in BOOLEAN, len \in 0..MaxLen :
+Init == \E v \in 0..(Pow(2, W) - 1), base \in Bases, signed \in Signs, len \in 0..MaxLen :
            st = AlgoInit(v, W, base, signed, len, Off, Before(len))
 Next == ~AlgoDone(st) /\ st' = AlgoStep(st)
 Spec == Init /\ [][Next]_st
@@ -37,4 +37,8 @@ CanonShape == st.pc = "start" =>
               /\ (c[1] = MinusChar => st.signed /\ st.b = 10 /\ st.v >= Pow(2, W - 1))
               /\ LET val == DToNat([i \in 1..Len(body) |-> IF body[i] < 58 THEN body[i] - 48 ELSE body[i] - 55], st.b) IN
                  IF c[1] = MinusChar THEN val = Pow(2, W) - st.v ELSE val = st.v
+\* the canonical text uses the chunked conversion; the plain repeated division is its definition
+FastIsSlow == st.pc = "start" => /\ DConvertFast(DFromNat(st.v, LimbRadix), LimbRadix, st.b) = DConvert(DFromNat(st.v, LimbRadix), LimbRadix, st.b)
+                                 /\ LET big == <<st.v, 65535 - st.v, st.v * 7 % 65536, st.len * 4099 + st.v>> IN
+                                    DConvertFast(big, LimbRadix, st.b) = DConvert(big, LimbRadix, st.b)
 =============================================================================
